@@ -98,3 +98,101 @@ Proof. exact swapped_geometry. Qed.
 
 Goal True. idtac "THEOREM C07_transpose". Abort. Print Assumptions C07_transpose.
 Goal True. idtac "THEOREM C07_transposed_request_geometry". Abort. Print Assumptions C07_transposed_request_geometry.
+
+(* ARRAY LEVEL MIRROR (Proofs/C07Mirror.v).  mirror_args: every source row reversed, u negated, and in
+   footprint mode the tower reflected with the cells (xm' = (nx-1) dx - xm); same geometry.  The
+   retained x-frequency set of an even mode count has one unpaired member (-nlx/2, its Nyquist
+   column): "exact apart from the Nyquist components" is proved in three forms.
+   (1) C07_mirror_x: the fields synthesised WITHOUT that column are mirrored cell by cell
+       (k, j, i) <-> (k, j, nx-1-i): concentration and flux, every level list, halo, mode count,
+       footprint (both precisions) and dispersion mode (double storage, default measurement point),
+       numerical and analytic branch;
+   (2) C07_mirror_x_defect: the mirror defect of the arrays actually returned equals the mirror defect
+       of the Nyquist column's contribution alone;
+   (3) C07_mirror_x_odd: when the (clamped) mode count is odd no column is unpaired and the returned
+       arrays themselves are mirrored.
+   The same for y (C07_mirror_y ...). *)
+From BL Require Import Proofs.C07Mirror.
+Theorem C07_mirror_geometry : forall (O : Ops), Laws O -> forall (a : args O),
+  geometry O (mirror_args O a) = geometry O a /\ (wf O a -> geometry O (mirror_y_args O a) = geometry O a).
+Proof. intros O L a. exact (conj (mirror_geometry O L a) (mirror_y_geometry O L a)). Qed.
+
+Theorem C07_mirror_x : forall (O : Ops), Laws O -> forall (a : args O) (g : geom O) sel k j i,
+  (forall pq s, sel (cmul O (fst pq) s, cmul O (snd pq) s) = cmul O (sel pq) s) ->
+  wf O a -> geometry O a = inl g ->
+  (a_footprint O a = true -> g_dx O g <> c0 O) ->
+  (a_footprint O a = false -> a_single O a = false) ->
+  (a_footprint O a = false -> cltb O (c0 O) (cadd O (cmul O (a_xm O a) (a_xm O a)) (cmul O (a_ym O a) (a_ym O a))) = false) ->
+  (k < length (a_levels O a))%nat -> (j < g_ny O g)%nat -> (i < g_nx O g)%nat ->
+  get3 O (field O (mirror_args O a) g sel (table_noNyq O (mirror_args O a) g)) k j i
+  = get3 O (field O a g sel (table_noNyq O a g)) k j (g_nx O g - 1 - i).
+Proof. exact mirror_x_cells. Qed.
+
+Theorem C07_mirror_x_defect : forall (O : Ops), Laws O -> forall (a : args O) (g : geom O) sel k j i,
+  (forall pq s, sel (cmul O (fst pq) s, cmul O (snd pq) s) = cmul O (sel pq) s) ->
+  wf O a -> geometry O a = inl g ->
+  (a_footprint O a = true -> g_dx O g <> c0 O) ->
+  (a_footprint O a = false -> a_single O a = false) ->
+  (a_footprint O a = false -> cltb O (c0 O) (cadd O (cmul O (a_xm O a) (a_xm O a)) (cmul O (a_ym O a) (a_ym O a))) = false) ->
+  (k < length (a_levels O a))%nat -> (j < g_ny O g)%nat -> (i < g_nx O g)%nat ->
+  csub O (get3 O (field O (mirror_args O a) g sel (table O (mirror_args O a) g)) k j i)
+         (get3 O (field O a g sel (table O a g)) k j (g_nx O g - 1 - i))
+  = csub O (get3 O (field O (mirror_args O a) g sel (table_Nyq O (mirror_args O a) g)) k j i)
+           (get3 O (field O a g sel (table_Nyq O a g)) k j (g_nx O g - 1 - i)).
+Proof. exact mirror_x_cells_defect. Qed.
+
+Theorem C07_mirror_x_odd : forall (O : Ops), Laws O -> forall (a : args O) (g : geom O) sel k j i,
+  (forall pq s, sel (cmul O (fst pq) s, cmul O (snd pq) s) = cmul O (sel pq) s) ->
+  wf O a -> geometry O a = inl g ->
+  (a_footprint O a = true -> g_dx O g <> c0 O) ->
+  (a_footprint O a = false -> a_single O a = false) ->
+  (a_footprint O a = false -> cltb O (c0 O) (cadd O (cmul O (a_xm O a) (a_xm O a)) (cmul O (a_ym O a) (a_ym O a))) = false) ->
+  Nat.odd (g_nlx O g) = true ->
+  (k < length (a_levels O a))%nat -> (j < g_ny O g)%nat -> (i < g_nx O g)%nat ->
+  get3 O (field O (mirror_args O a) g sel (table O (mirror_args O a) g)) k j i
+  = get3 O (field O a g sel (table O a g)) k j (g_nx O g - 1 - i).
+Proof. exact mirror_x_cells_odd. Qed.
+
+Theorem C07_mirror_y : forall (O : Ops), Laws O -> forall (a : args O) (g : geom O) sel k j i,
+  (forall pq s, sel (cmul O (fst pq) s, cmul O (snd pq) s) = cmul O (sel pq) s) ->
+  wf O a -> geometry O a = inl g ->
+  (a_footprint O a = true -> g_dy O g <> c0 O) ->
+  (a_footprint O a = false -> a_single O a = false) ->
+  (a_footprint O a = false -> cltb O (c0 O) (cadd O (cmul O (a_xm O a) (a_xm O a)) (cmul O (a_ym O a) (a_ym O a))) = false) ->
+  (k < length (a_levels O a))%nat -> (j < g_ny O g)%nat -> (i < g_nx O g)%nat ->
+  get3 O (field O (mirror_y_args O a) g sel (table_noNyq_y O (mirror_y_args O a) g)) k j i
+  = get3 O (field O a g sel (table_noNyq_y O a g)) k (g_ny O g - 1 - j) i.
+Proof. exact mirror_y_cells. Qed.
+
+Theorem C07_mirror_y_defect : forall (O : Ops), Laws O -> forall (a : args O) (g : geom O) sel k j i,
+  (forall pq s, sel (cmul O (fst pq) s, cmul O (snd pq) s) = cmul O (sel pq) s) ->
+  wf O a -> geometry O a = inl g ->
+  (a_footprint O a = true -> g_dy O g <> c0 O) ->
+  (a_footprint O a = false -> a_single O a = false) ->
+  (a_footprint O a = false -> cltb O (c0 O) (cadd O (cmul O (a_xm O a) (a_xm O a)) (cmul O (a_ym O a) (a_ym O a))) = false) ->
+  (k < length (a_levels O a))%nat -> (j < g_ny O g)%nat -> (i < g_nx O g)%nat ->
+  csub O (get3 O (field O (mirror_y_args O a) g sel (table O (mirror_y_args O a) g)) k j i)
+         (get3 O (field O a g sel (table O a g)) k (g_ny O g - 1 - j) i)
+  = csub O (get3 O (field O (mirror_y_args O a) g sel (table_Nyq_y O (mirror_y_args O a) g)) k j i)
+           (get3 O (field O a g sel (table_Nyq_y O a g)) k (g_ny O g - 1 - j) i).
+Proof. exact mirror_y_cells_defect. Qed.
+
+Theorem C07_mirror_y_odd : forall (O : Ops), Laws O -> forall (a : args O) (g : geom O) sel k j i,
+  (forall pq s, sel (cmul O (fst pq) s, cmul O (snd pq) s) = cmul O (sel pq) s) ->
+  wf O a -> geometry O a = inl g ->
+  (a_footprint O a = true -> g_dy O g <> c0 O) ->
+  (a_footprint O a = false -> a_single O a = false) ->
+  (a_footprint O a = false -> cltb O (c0 O) (cadd O (cmul O (a_xm O a) (a_xm O a)) (cmul O (a_ym O a) (a_ym O a))) = false) ->
+  Nat.odd (g_nly O g) = true ->
+  (k < length (a_levels O a))%nat -> (j < g_ny O g)%nat -> (i < g_nx O g)%nat ->
+  get3 O (field O (mirror_y_args O a) g sel (table O (mirror_y_args O a) g)) k j i
+  = get3 O (field O a g sel (table O a g)) k (g_ny O g - 1 - j) i.
+Proof. exact mirror_y_cells_odd. Qed.
+
+Goal True. idtac "THEOREM C07_mirror_geometry". Abort. Print Assumptions C07_mirror_geometry.
+Goal True. idtac "THEOREM C07_mirror_x". Abort. Print Assumptions C07_mirror_x.
+Goal True. idtac "THEOREM C07_mirror_x_defect". Abort. Print Assumptions C07_mirror_x_defect.
+Goal True. idtac "THEOREM C07_mirror_x_odd". Abort. Print Assumptions C07_mirror_x_odd.
+Goal True. idtac "THEOREM C07_mirror_y". Abort. Print Assumptions C07_mirror_y.
+Goal True. idtac "THEOREM C07_mirror_y_defect". Abort. Print Assumptions C07_mirror_y_defect.
+Goal True. idtac "THEOREM C07_mirror_y_odd". Abort. Print Assumptions C07_mirror_y_odd.
